@@ -253,6 +253,34 @@ func runC17(c *Ctx) {
 		c.OpK("cover", "spec.cover "+args, b01(cov), true, "cover-vs-rfc")
 		c.Op("match", fmt.Sprintf("nsec3.match %s %s %s", b01(inZone), o.String(), h.String()), b01(mat), true)
 	}
+	// 3'. the same for a record of the root zone: the owner is the hash label alone, every name lies inside the zone
+	for i, n := 0, c.Scale(120, 3000); i < n; i++ {
+		name := genLabels(r, 0)
+		salt := r.Bytes(r.Intn(5))
+		iter := r.Intn(4)
+		max := new(big.Int).Lsh(big.NewInt(1), 160)
+		h := new(big.Int).SetBytes(refHashName(name, iter, salt))
+		pick := func() *big.Int {
+			d := big.NewInt(int64([]int{-3, -2, -1, 0, 1, 2, 3}[r.Intn(7)]))
+			if r.Chance(30) {
+				d = new(big.Int).SetBytes(r.Bytes(20))
+			}
+			v := new(big.Int).Add(h, d)
+			return v.Mod(v, max)
+		}
+		o, nx := pick(), pick()
+		if r.Chance(15) {
+			nx = new(big.Int).Set(o)
+		}
+		toHash := func(v *big.Int) string { return b32hex.EncodeToString(v.FillBytes(make([]byte, 20))) }
+		rr := &dns.NSEC3{Hdr: dns.RR_Header{Name: randCase(r, toHash(o)+"."), Rrtype: dns.TypeNSEC3, Class: 1},
+			Hash: dns.SHA1, Iterations: uint16(iter), SaltLength: uint8(len(salt)), Salt: hex.EncodeToString(salt), HashLength: 20, NextDomain: toHash(nx)}
+		q := randCase(r, presentLabels(name))
+		cov, mat := rr.Cover(q), rr.Match(q)
+		args := fmt.Sprintf("1 %s %s %s", o.String(), nx.String(), h.String())
+		c.OpK("cover", "nsec3.cover "+args, b01(cov), true, "cover-root-zone")
+		c.OpK("match", fmt.Sprintf("nsec3.match 1 %s %s", o.String(), h.String()), b01(mat), true, "match-root-zone")
+	}
 	// 4. validity period
 	n = c.Scale(5000, 100000)
 	now := int64(1790000000)
